@@ -231,10 +231,14 @@ pub fn main(args: &[String]) {
         let dir = work_dir();
         let certs = Certs::generate(&dir, "main").expect("certs");
         let addr = start_server(&certs).expect("server");
-        let client = connect_client(addr, &certs, BackoffStrategy::constant().with_max_attempts(0)).await.expect("client");
+        let mut client = connect_client(addr, &certs, BackoffStrategy::constant().with_max_attempts(0)).await.expect("client");
         let seed: u64 = args.get(1).and_then(|s| s.parse().ok()).unwrap_or(1);
         let n: u64 = if args[0] == "gen" { args[2].parse().unwrap() } else { 3 };
         for i in 0..n {
+            // streams stay open on the connection (QUIC: 100 concurrent streams): fresh client every 8 cases
+            if i > 0 && i % 8 == 0 {
+                client = connect_client(addr, &certs, BackoffStrategy::constant().with_max_attempts(0)).await.expect("client");
+            }
             run_case(&client, addr, &certs, seed, i, &mut out).await;
         }
         let _ = std::fs::remove_dir_all(&dir);
